@@ -9,7 +9,7 @@ GETTER_TASKS = getter_tasks()
 
 ID = "C01"
 META = {
-    "assumptions": ['A-REAL', 'A-COMM', 'A-T', 'A-IND', 'A-DATA-NONE', 'A-CYTHON', 'A-SOLVER', 'A-ENGINE'],
+    "assumptions": ['A-REAL', 'A-COMM', 'A-T', 'A-IND', 'A-CYTHON', 'A-SOLVER', 'A-ENGINE'],
     "explanation": "StrategyBase.update proved to establish, at the node it is called on: value == cash + sum of active children's values (exact on a new date, within the code's own is_zero otherwise), notional == sum |child notional|, every active child's weight == value/parent value (notional analogue; 0 on a zero base), rows at the current index equal the scalars; children loop cut at invariants over ghost sums (unbounded width); each security update override proved against a functional spec giving value == position*price*multiplier (0 with NaN price and flat position) and the row writes. Depth by modular recursion (A-IND).",
 }
 MANIFEST_ENTRY = {
